@@ -69,10 +69,17 @@ def rotation_set(rng, name):
         rots = [rots[i] for i in order]
         return Rotation.from_quat(np.stack([r.as_quat() for r in rots])), rots
     if name == "range":
+        # the searched set is enumerated here, not taken from acryo: every multiple of step within +-max
+        from acryo.molecules import from_euler_xyz_coords
+        import itertools
+
         step = float(rng.choice([15.0, 20.0]))
-        arg = ((step, step), (0.0, 0.0), (step, step)) if rng.random() < 0.5 else ((0, 0), (step, step), (step, step))
-        quats = normalize_rotations(arg)
-        return arg, [Rotation.from_quat(q) for q in quats]
+        mx = step * float(rng.choice([1.0, 1.0, 1.6]))       # max need not be a multiple of step
+        arg = ((mx, step), (0.0, 0.0), (mx, step)) if rng.random() < 0.5 else ((0, 0), (mx, step), (mx, step))
+        angs = [np.array([0.0]) if st == 0 else np.arange(-int(np.floor(m_ / st + 1e-6)), int(np.floor(m_ / st + 1e-6)) + 1) * st
+                for m_, st in arg]
+        rots = [from_euler_xyz_coords(np.array(t_), "zyx", degrees=True) for t_ in itertools.product(*angs)]
+        return arg, rots
     K = int(name[4:])
     rots = [Rotation.identity()]
     while len(rots) < K:
